@@ -26,6 +26,14 @@ status set to "fixed" and /var/tmp/c41-mut.diff on top (re-adds `if self.is_shut
 prints VIOLATION (second concurrent caller returns from its first poll with handlersDone=False); undone -> exit 0.
 On the pinned tree the same observation is the known finding C41_second_shutdown_returns_early.
 
+Classification (reworked 2026-09-22 after the independent change seeded/_incoming/C41/patch2.diff, where the
+`endpoint.accept() == None` arm `return`s instead of `break`ing, so no ProtocolHandler::shutdown ever runs): a run-loop
+step that does not happen within its bound (handlers' shutdown not started, not finished, loop not exited) no longer
+aborts the schedule.  The schedule goes on; a `Router::shutdown` caller that returns with handlersDone = FALSE is the
+VIOLATION (sig.handlers_shutdown_started tells whether any handler shutdown had even been called).  Stalls without
+any wrong return, calls that never return and per-schedule environment errors are collected and become a tool error
+only when the run reports no violation.  The spec has the matching refuted switch `ExitOnAcceptNone`.
+
 Thorough tier additionally: 4 callers model-checked, every schedule on both runtimes, and the growth specification
 RouterLifecycle.tla (connections in flight during shutdown) with its own driver (`vh_router life`), see lifecycle().
 """
@@ -82,22 +90,33 @@ def table(res, what):
     return t
 
 
+class Soft(Exception):
+    """Non-conformance that is not a C41 violation (a call that never returns, an environment problem of one
+    schedule).  Collected; a tool error only if the run reports no violation."""
+
+
 def judge(sched, expected, aswritten, obs):
     """Compares the observations of one executed schedule with the required design's.  Returns a list of
-    (sig, what) for property-relevant mismatches; raises ToolError for non-conformance that is not a violation."""
+    (sig, what) for property-relevant mismatches; raises Soft for non-conformance that is not a violation.
+
+    Steps of the run loop that did not happen within their bound (`stalled`: e.g. the handlers' shutdown never started
+    after the endpoint was closed from outside) do not end a run: the callers go on, and a caller that returns while
+    the handlers are not shut down is the violation.  A stall with every caller's observation as required is an
+    environment / conformance matter (Soft)."""
     out = []
     if obs.get("tool_error"):
-        raise ToolError("c41 driver, schedule '%s': %s" % (key(sched), obs["tool_error"]))
+        raise Soft("c41 driver, schedule '%s': %s" % (key(sched), obs["tool_error"]))
     got = {o["c"]: o for o in obs["callers"]}
     if set(got) != set(expected):
-        raise ToolError("schedule '%s': callers observed %s, expected %s" % (key(sched), sorted(got), sorted(expected)))
+        raise Soft("schedule '%s': callers observed %s, expected %s" % (key(sched), sorted(got), sorted(expected)))
     starts = [o["c"] for o in sched if o["op"] == "start"]
+    hung = []
     for c in starts:
         o = got[c]
         eh, ee, _ = expected[c]
         if not o["returned"]:
-            raise ToolError("schedule '%s': shutdown() of %s did not return within the bound (non-conformance, not a C41 "
-                            "violation)" % (key(sched), c))
+            hung.append(c)
+            continue
         if (o["h"], o["e"]) == (eh, ee):
             continue
         ah, ae, avia = aswritten.get(c, (None, None, "none"))
@@ -107,11 +126,22 @@ def judge(sched, expected, aswritten, obs):
         stage = sched[o["at"]]["op"] if o["at"] < len(sched) else "end"
         sig = {"kind": kind, "caller": "first" if pos == 0 else "concurrent_later",
                "first_poll": o["first_poll"], "as_written_model_return": explained,
-               "ep_closed_outside": any(x["op"] == "ep_close" for x in sched)}
-        what = ("schedule '%s': Router::shutdown of %s returned (during '%s'%s) with handlersDone=%s endpointClosed=%s; "
-                "the specification requires handlersDone=%s endpointClosed=%s at every return"
-                % (key(sched), c, stage, ", from its first poll" if o["first_poll"] else "", o["h"], o["e"], eh, ee))
+               "ep_closed_outside": any(x["op"] == "ep_close" for x in sched),
+               "handlers_shutdown_started": bool(o.get("entered", True))}
+        what = ("schedule '%s': Router::shutdown of %s returned (during '%s'%s) with handlersDone=%s endpointClosed=%s%s; "
+                "the specification requires handlersDone=%s endpointClosed=%s at every return%s"
+                % (key(sched), c, stage, ", from its first poll" if o["first_poll"] else "", o["h"], o["e"],
+                   "" if o.get("entered", True) else " (no ProtocolHandler::shutdown had even been called)", eh, ee,
+                   ("; steps that did not happen: " + "; ".join(obs["stalled"])) if obs.get("stalled") else ""))
         out.append((sig, what))
+    if out:
+        return out
+    if hung:
+        raise Soft("schedule '%s': shutdown() of %s did not return within the bound (non-conformance, not a C41 violation)%s"
+                   % (key(sched), ",".join(hung), ("; stalled: " + "; ".join(obs["stalled"])) if obs.get("stalled") else ""))
+    if obs.get("stalled") and not obs.get("done_at_end", True):
+        raise Soft("schedule '%s': %s, and the handlers were still not shut down when the schedule was over (no shutdown() "
+                   "call returned wrongly, so this is not a C41 violation)" % (key(sched), "; ".join(obs["stalled"])))
     return out
 
 
@@ -189,8 +219,11 @@ def run(ctx):
     ctx.tlc("router", "RouterShutdown", constants={"Callers": CALLERS3, "Fixed": "TRUE"},
             require_actions=["LoopCancel", "LoopAcceptNone", "HandlersDown", "EpClose", "Exit", "EndpointCloses",
                              "Start", "Cancel", "Acquire", "Await"])
-    ctx.tlc("router", "RouterShutdown", constants={"Callers": CALLERS3, "Fixed": "FALSE"},
-            expect_violation="ReturnMeansDone")
+    ctx.tlc("router", "RouterShutdown", cfg="RouterShutdown_refute.cfg",
+            constants={"Callers": CALLERS3, "Fixed": "FALSE", "ExitOnAcceptNone": "FALSE"}, expect_violation="ReturnMeansDone")
+    # ... and so is "the run loop leaves at once when accept() yields None" (endpoint closed behind the router's back)
+    ctx.tlc("router", "RouterShutdown", cfg="RouterShutdown_refute.cfg",
+            constants={"Callers": CALLERS3, "Fixed": "TRUE", "ExitOnAcceptNone": "TRUE"}, expect_violation="ReturnMeansDone")
     if not ctx.quick:
         ctx.tlc("router", "RouterShutdown", constants={"Callers": '{"c1", "c2", "c3", "c4"}', "Fixed": "TRUE"}, timeout=1800)
     # 2. drivable schedules with the observations the required design determines / the as-written model predicts
@@ -227,12 +260,17 @@ def run(ctx):
         raise ToolError("harness returned %d observations for %d schedules" % (len(obs), len(scen)))
 
     selftests = {"flipped_observation_rejected": 0, "flipped_observation_total": 0}
+    soft = []
     for s, o in zip(scen, obs):
         k = key(s["ops"])
         exp, pred = fixed[k][1], asw[k][1]
         nstart = sum(1 for x in s["ops"] if x["op"] == "start")
         ctx.count(case_key=[k, s["rt"]], nontrivial=nstart >= 2 or any(x["op"] == "ep_close" for x in s["ops"]))
-        bad = judge(s["ops"], exp, pred, o)
+        try:
+            bad = judge(s["ops"], exp, pred, o)
+        except Soft as e:
+            soft.append(str(e))
+            continue
         if nstart >= 2:
             ctx.sample({"schedule": k, "runtime": s["rt"],
                         "expected_at_return": {c: [v[0], v[1]] for c, v in exp.items()},
@@ -247,6 +285,10 @@ def run(ctx):
                 selftests["flipped_observation_total"] += 1
                 if judge(s["ops"], exp, pred, o2):
                     selftests["flipped_observation_rejected"] += 1
+    if soft:
+        ctx.log("%d schedules with non-conformance that is not a C41 violation, first: %s" % (len(soft), soft[0]))
+        if not ctx.violations:
+            raise ToolError("%d schedules; first: %s" % (len(soft), soft[0]))
     if selftests["flipped_observation_rejected"] != selftests["flipped_observation_total"]:
         raise ToolError("binding self-test failed: %s" % selftests)
     ctx.cov["binding_selftests"] = selftests
